@@ -1,6 +1,3 @@
-#define ENS(...) __CPROVER_ensures(__VA_ARGS__)
-#define RV __CPROVER_return_value
-#define OLD(x) __CPROVER_old(x)
 /* encodeUtf8: decided for ALL 2^32 code points against the RFC 3629 table (loop-free) */
 bool Parser_encodeUtf8_contract(uint32_t cp, iora_ostr *out)
 __CPROVER_requires(IORA_TRUE && __CPROVER_is_fresh(out, sizeof(*out)) && out->n <= ((size_t)1 << 50))
@@ -16,21 +13,7 @@ ENS(GK < OLD(out->n) ==> out->gk == OLD(out->gk))
 ;
 void h_encodeUtf8(void) { uint32_t cp; iora_ostr *o; bool r = Parser_encodeUtf8(cp, o); IORA_CANARY("h_encodeUtf8: returns"); if (r) { IORA_CANARY("h_encodeUtf8: encoded"); } else { IORA_CANARY("h_encodeUtf8: refused"); } }
 
-/* appendCharRef: safety, termination, digit validation, append discipline. The relation between the accumulated value and the MATHEMATICAL value of
- * the digit string is not stated here (needs a ghost accumulator; see NOTES.md) */
-#define IS_HEXREF (entBody.p[1] == (char)120 || entBody.p[1] == (char)88)
-bool Parser_appendCharRef_contract(iora_sv entBody, iora_ostr *out)
-__CPROVER_requires(IORA_TRUE && (entBody.n >> 40) == 0 && __CPROVER_is_fresh(entBody.p, entBody.n) && __CPROVER_is_fresh(out, sizeof(*out)) && out->n <= ((size_t)1 << 50))
-__CPROVER_requires(GD < entBody.n ==> GDC == entBody.p[GD])
-__CPROVER_assigns(out->n, out->gk)
-/* R1 a body shorter than 2 ("#" alone) is refused */
-ENS(entBody.n < 2 ==> !RV)
-/* R2 acceptance => every character after the prefix is a digit of the base (witness index GD) */
-ENS((RV && IS_HEXREF && GD >= 2 && GD < entBody.n) ==> IS_HEX(GDC))
-ENS((RV && !IS_HEXREF && GD >= 1 && GD < entBody.n) ==> IS_DEC(GDC))
-/* R3 acceptance appends one UTF-8 sequence (1..4 bytes); refusal appends nothing; earlier output untouched */
-ENS(RV ==> (out->n >= OLD(out->n) + 1 && out->n <= OLD(out->n) + 4))
-ENS(!RV ==> (out->n == OLD(out->n) && out->gk == OLD(out->gk)))
-ENS(GK < OLD(out->n) ==> out->gk == OLD(out->gk))
-;
+/* appendCharRef: ACR_BASIC with the built-in checks, ACR_VALUE (exact value through the ghost accumulator) separately */
+DECL_appendCharRef(Parser_appendCharRef_basic, ACR_BASIC)
+DECL_appendCharRef(Parser_appendCharRef_value, ACR_VALUE)
 void h_appendCharRef(void) { iora_sv e; iora_ostr *o; bool r = Parser_appendCharRef(e, o); IORA_CANARY("h_appendCharRef: returns"); if (r) { IORA_CANARY("h_appendCharRef: appended"); } else { IORA_CANARY("h_appendCharRef: refused"); } }
